@@ -35,6 +35,16 @@ func c19op(h *hdrhist.Histogram, op *Sexp) (out string) {
 		return fmt.Sprint(h.Max())
 	case "reimport":
 		return bit(hdrhist.Import(h.Export()).Equals(h))
+	case "snaprec":
+		// a snapshot taken by Export/Import is independent of the original: recording into the
+		// original afterwards must not change it, and it answers Max like the original did
+		imp := hdrhist.Import(h.Export())
+		t0, maxEq := imp.TotalCount(), imp.Max() == h.Max()
+		res := "ok"
+		if err := h.RecordValues(args[0].Int64(), args[1].Int64()); err != nil {
+			res = "err"
+		}
+		return fmt.Sprintf("%d,%d,%s/%s", t0, imp.TotalCount(), bit(maxEq), res)
 	case "merge":
 		m := hdrhist.New(h.LowestTrackableValue(), h.HighestTrackableValue(), int(h.SignificantFigures()))
 		dropped := m.Merge(h)
